@@ -233,6 +233,16 @@ def run(tape, prop, tier):
                         del S["ev_inflight"][ev.eid]
             return h
 
+        def sync_wrapper(hid, h):
+            # a plain callable returning an awaitable is a legal handler; it may raise before returning the coroutine
+            def call(ev):
+                if herr[(hid * 5 + ev.eid) % D] and exit_path == "isolation":
+                    S["entries"][(hid, ev.eid)] += 1
+                    res.faults["handler_raises_synchronously"] += 1
+                    raise KeyError("adapter boom (synchronous)")
+                return h(ev)
+            return call
+
         hid = 0
         handlers_of = {}
         for si, s in enumerate(srcs):
@@ -240,7 +250,8 @@ def run(tape, prop, tier):
             for _ in range(nh):
                 hid += 1
                 hs.append(hid)
-                d.subscribe(s, mk_handler(hid))
+                h_ = mk_handler(hid)
+                d.subscribe(s, sync_wrapper(hid, h_) if hid % 3 == 0 else h_)
             handlers_of[si] = hs
         src_of_event = {}
         for si, s in enumerate(srcs):
@@ -293,6 +304,14 @@ def run(tape, prop, tier):
                 res.probes["rt_pool_full_job_and_event_due"] += 1
 
         quiet = 20 + len(all_events) * (2.5 + 0.6 * nidle) + njobs * (1 + 0.6 * nidle)
+        # the application has its own record factory (the standard recipe for adding context attributes)
+        base_factory = logging.getLogRecordFactory()
+
+        def app_factory(*a, **k):
+            r_ = base_factory(*a, **k)
+            r_.session = "app"
+            return r_
+        logging.setLogRecordFactory(app_factory)
         old_factory = logging.getLogRecordFactory()
         run_task = asyncio.ensure_future(d.run(stop_signals=[]))
         phase = dict(cleanup=False)
@@ -357,6 +376,8 @@ def run(tape, prop, tier):
             V("log-factory-not-restored", "logging.getLogRecordFactory() after run() is not the factory from before the run")
         try:
             rec = fac("x", logging.ERROR, __file__, 1, "after the run", (), None)
+            if fac is old_factory and getattr(rec, "session", None) != "app":
+                V("log-factory-not-restored", "records created after the run lack the attribute the application's factory adds")
             if abs(rec.created - loop.wall()) > 5.0:
                 V("log-time-still-simulated", f"log record created after the run is stamped {rec.created}, wall clock is {loop.wall()}")
             if out["o"][0] != "return":
